@@ -1,6 +1,7 @@
 package main
 
 import (
+	"sort"
 	"go/token"
 	"go/types"
 	"strings"
@@ -81,11 +82,49 @@ func c20(c *Ctx) {
 						continue
 					}
 					rv := retResult(ret, k)
-					cons := "success return of " + shortName(holder) + " result#" + itoa(k)
-					fromR := dependsOn(rv, isR) || slicePtrDependsOn(rv, isR)
-					fromL := dependsOn(rv, isLoad) || slicePtrDependsOn(rv, isLoad)
-					r.Check(fromR && !fromL, "C20.R1", cons, p.Pos(posOf(ret)), "region base derives from the atomic reservation result",
-						"the region handed out is computed from a value loaded before the atomic reservation (or not from the reservation at all): two concurrent requesters that load the same cursor value receive the same region")
+					// a result that is a region record built here is judged field by field (address and bytes)
+					type part struct {
+						name string
+						v    ssa.Value
+					}
+					parts := []part{{"result#" + itoa(k), rv}}
+					if al, isAl := resolveLocal(rv).(*ssa.Alloc); isAl {
+						if pt, ok := al.Type().Underlying().(*types.Pointer); ok {
+							if _, isS := pt.Elem().Underlying().(*types.Struct); isS {
+								var fparts []part
+								for _, sb := range p.structBuilds(holder, 0) {
+									if st, ok := sb.At.(*ssa.Store); ok && st.Addr.(*ssa.FieldAddr).X == ssa.Value(al) {
+										var names []string
+										byName := map[string]ssa.Value{}
+										for fv, v := range sb.Fields {
+											if v == nil {
+												continue
+											}
+											if _, isC := v.(*ssa.Const); isC {
+												continue
+											}
+											names = append(names, fv.Name())
+											byName[fv.Name()] = v
+										}
+										sort.Strings(names)
+										for _, n := range names {
+											fparts = append(fparts, part{"result#" + itoa(k) + "." + n, byName[n]})
+										}
+									}
+								}
+								if len(fparts) > 0 {
+									parts = fparts
+								}
+							}
+						}
+					}
+					for _, pt := range parts {
+						cons := "success return of " + shortName(holder) + " " + pt.name
+						fromR := dependsOn(pt.v, isR) || slicePtrDependsOn(pt.v, isR)
+						fromL := dependsOn(pt.v, isLoad) || slicePtrDependsOn(pt.v, isLoad)
+						r.Check(fromR && !fromL, "C20.R1", cons, p.Pos(posOf(ret)), "region base derives from the atomic reservation result",
+							"the region handed out is computed from a value loaded before the atomic reservation (or not from the reservation at all): two concurrent requesters that load the same cursor value receive the same region")
+					}
 				}
 				// bounds: new <= max dominates
 				k := NewKeyer(holder)
@@ -313,6 +352,62 @@ func c20(c *Ctx) {
 								"Acquire returns a region although its allocator reported an error")
 						}
 					}
+				}
+			}
+		}
+	}
+	// the allocators may build the region record themselves: then the kind is the constant in their own literal, and
+	// Acquire hands their record on only when they reported no error
+	for _, af := range []*ssa.Function{mmapFn, holder} {
+		if af == nil {
+			continue
+		}
+		if _, seen := tagOf[af]; seen {
+			continue
+		}
+		for _, sb := range p.structBuilds(af, 1) {
+			for fv, v := range sb.Fields {
+				if v == nil || !isIntegerType(fv.Type()) {
+					continue
+				}
+				if cv, ok := constInt(v); ok {
+					// the literal must be what a success return hands out
+					for _, ret := range returnsOf(af) {
+						if st, isSt := sb.At.(*ssa.Store); isSt && resolveLocal(retResult(ret, 0)) == st.Addr.(*ssa.FieldAddr).X {
+							tagOf[af] = cv
+							spaceTyp = fv
+						}
+					}
+				}
+			}
+		}
+		if _, got := tagOf[af]; got {
+			for _, cs := range p.callersOf(af) {
+				if cs.Caller != acq {
+					continue
+				}
+				cl, isCall := cs.Instr.(*ssa.Call)
+				if !isCall {
+					continue
+				}
+				for _, ret := range returnsOf(acq) {
+					uses := false
+					for _, a := range origins(retResult(ret, 0)) {
+						if ex, ok := a.V.(*ssa.Extract); ok && ex.Tuple == ssa.Value(cl) {
+							uses = true
+						}
+					}
+					if !uses {
+						continue
+					}
+					passThrough := false
+					for _, a := range origins(retResult(ret, 1)) {
+						if ex, ok := a.V.(*ssa.Extract); ok && ex.Tuple == ssa.Value(cl) {
+							passThrough = true // returned together with the allocator's own error
+						}
+					}
+					r.Check(passThrough || errNilGuarded(ret.Block(), cl), "C20.R4", "Acquire success from "+shortName(af)+" (record)", p.Pos(posOf(ret)), "region used only when its allocator returned nil error",
+						"Acquire returns a region although its allocator reported an error")
 				}
 			}
 		}
